@@ -519,6 +519,8 @@ def observables_of(res, spec, h, which=None):
                 put("parity_expectation:subset", lambda: st.parity_expectation(q["subset"]))
             put("number_expectation", lambda: st.number_expectation(q["subset"]))
             put("poly_quad_expectation", lambda: st.poly_quad_expectation(np.array(q["A"]) / h, np.array(q["d"]) / rt, 0.3, phi=q["phi"]))
+            put("poly_quad_expectation:linear", lambda: st.poly_quad_expectation(None, np.array(q["d"]) / rt))
+            put("poly_quad_expectation:quadratic", lambda: st.poly_quad_expectation(np.array(q["A"]) / h))
             put("wigner", lambda: st.wigner(q["subset"][0], xs, xs) * h)
             # reduced_gaussian of a subset
             put("reduced_gaussian", lambda: np.concatenate([st.reduced_gaussian(q["subset"])[0] / rt, st.reduced_gaussian(q["subset"])[1].ravel() / h]))
@@ -568,6 +570,18 @@ def observables_of(res, spec, h, which=None):
             put("all_fock_probs", lambda: st.all_fock_probs(cutoff=3))
             put("number_expectation", lambda: st.number_expectation(q["subset"]))
             put("marginal", lambda: st.marginal(k0, xs5, phi=q["phi"]) * rt)
+        # every query above was made on ONE state object: none of them may have changed what the object holds,
+        # and asking again must give the same answers
+        def final_state():
+            if be == "gaussian":
+                return np.concatenate([st.means() / rt, st.cov().ravel() / h])
+            if be == "bosonic":
+                return np.concatenate([_c(st.weights()), _c(st.means()).ravel() / rt, _c(st.covs()).ravel() / h])
+            return _c(st.dm()).ravel() if n == 1 else _c(st.all_fock_probs()).ravel()
+        put("history:state-after-all-queries", final_state)
+        put("history:requery", lambda: np.concatenate([_c([st.mean_photon(k) for k in range(n)]), _c(st.fidelity_vacuum()),
+                                                        _c([st.quad_expectation(k, q["phi"])[0] / rt for k in range(n)]),
+                                                        _c(st.fidelity_coherent(alpha)), _c(st.fock_prob(q["fock"]))]))
     return out
 
 
@@ -867,8 +881,14 @@ def _search_units(ctx, rng):
     for _ in range(ctx.budget(50, 1000)):
         case = units_case(rng)
         h = rng.choice(HBARS) if rng.random() < 0.7 else _r3(rng.uniform(0.3, 5))
+        # the same numbers x, p, select again in another convention (anything remembered from the first must not leak)
+        h_other = rng.choice([x for x in HBARS if x != h])
         bad = units_eval(case, h)
-        ctx.case({"units": case, "h": h}, nontrivial=h != 2, bucket="units")
+        bad_other = units_eval(case, h_other)
+        ctx.case({"units": case, "h": [h, h_other]}, nontrivial=h != 2, bucket="units")
+        for name, got, want in bad_other:
+            ctx.counterexample("units:" + name, "at hbar=%s (after the same call at hbar=%s) %s: got %s, documented %s" % (h_other, h, name, got, want),
+                               {"check": "units2", "case": case, "h": h, "h2": h_other, "obs": name})
         for name, got, want in bad:
             ctx.counterexample("units:" + name, "at hbar=%s %s: got %s, documented %s" % (h, name, got, want),
                                {"check": "units", "case": case, "h": h, "obs": name})
@@ -1437,6 +1457,12 @@ def replay(ctx, data):
             for r, name, v1, v2 in bad:
                 print("run %d: %s: hbar=%s -> %s ; hbar=2 reference -> %s (unit divided out)" % (r, name, d["h"], v1, v2))
             return any(name == d["obs"] for _, name, _, _ in bad)
+        if d.get("check") == "units2":
+            units_eval(d["case"], d["h"])
+            bad = units_eval(d["case"], d["h2"])
+            for b in bad:
+                print(b)
+            return any(name == d["obs"] for name, _, _ in bad)
         if d.get("check") == "units":
             bad = units_eval(d["case"], d["h"])
             for b in bad:
